@@ -491,6 +491,7 @@ fn judge(
     body: &Option<String>,
     faulted: bool,
     faults_fired: u32,
+    must_fail: bool,
     who: &str,
 ) -> Option<(String, String)> {
     let detail = |what: &str| {
@@ -579,6 +580,15 @@ fn judge(
         return Some((
             format!("rule=P2 status={} class={}", status, e.class),
             detail("exit status is neither the promised one nor the runtime's panic status"),
+        ));
+    }
+    // text that cannot be delivered in full (the descriptor fails before the end of it) is a
+    // failed print: the process has to say so - std's print macros panic, status 101 - and not
+    // exit as if the help, the completions or the error message had been shown
+    if must_fail && status != 101 {
+        return Some((
+            format!("rule=P2 failed-write-not-reported status={} class={}", status, e.class),
+            detail("the promised text cannot have been written in full, yet the exit status reports no failure"),
         ));
     }
     None
@@ -985,6 +995,14 @@ pub fn run_case(case: &Case, stats: &mut Stats) -> RunReport {
             show(&obs.stderr)
         ));
         let body = obs.body.as_ref().map(|v| format!("{:?}", v));
+        // stdout is line buffered: what follows the last line feed waits for the flush at exit,
+        // whose failure std ignores; stderr is not buffered at all
+        let cut = |f: &StreamFault, promised: usize| matches!(f, StreamFault::ErrAt { at, .. } if promised > *at);
+        let out_sync = e.stdout.iter().rposition(|b| *b == b'\n').map_or(0, |ix| ix + 1);
+        let must_fail = e.class != "value" && (cut(out_fault, out_sync) || cut(err_fault, e.stderr.len()));
+        if must_fail {
+            stats.bump("probe.promised_text_cannot_be_delivered");
+        }
         if let Some((key, detail)) = judge(
             &e,
             &obs.stdout,
@@ -993,6 +1011,7 @@ pub fn run_case(case: &Case, stats: &mut Stats) -> RunReport {
             &body,
             faulted,
             fired,
+            must_fail,
             "simulated process",
         ) {
             let rule = if key.starts_with("rule=P2") { "P2" } else { "P1" };
@@ -1041,6 +1060,7 @@ pub fn run_case(case: &Case, stats: &mut Stats) -> RunReport {
                         &ro.body,
                         faulted,
                         rfired,
+                        must_fail,
                         "real child process",
                     ) {
                         // an unfaulted real child that is wrong, or a faulted one that breaks
